@@ -61,9 +61,10 @@ pub proof fn lemma_flat_of_plain(v: Seq<Grapheme>)
     }
 }
 
-// C13: no quantifier (a grapheme printed once), or a unit that spans at least the configured number of symbols and has an exact count -- at every nesting depth
+// C13: no quantifier (a grapheme printed once), or a unit that spans at least the configured number of symbols and has an exact count that exceeds the
+// configured minimum of repetitions -- at every nesting depth
 pub open spec fn printed_once(g: Grapheme) -> bool { g.min == 1 && g.max == 1 }
-pub open spec fn unit_ok(g: Grapheme, c: RegExpConfig) -> bool { g.chars@.len() >= c.minimum_substring_length && g.min == g.max }
+pub open spec fn unit_ok(g: Grapheme, c: RegExpConfig) -> bool { g.chars@.len() >= c.minimum_substring_length && g.min == g.max && g.max > c.minimum_repetitions }
 pub open spec fn deep_ok(g: Grapheme, c: RegExpConfig) -> bool
     decreases g
 {
